@@ -4,6 +4,14 @@
 //	stream | write <payload> ; wbyte <b> ; wbool <0|1> ; wi16 <d> ; wi32 <d> ; wi64 <d> ; read <k> ; rbyte ;
 //	         tidy ; reset ; seek <off> <whence>
 //	<payload> = hex | "-" (empty) | "#<n>:<s>" (n bytes, byte j = (s+j) mod 256)
+//	          | "@<n>:<s>" (n bytes, byte j = byte (j mod 4) of the little-endian uint32 (s<<22)+j/4: no period, for large chunks)
+//
+// Caller-memory discipline (aliasing): every Write gets its bytes in ONE source scratch slice that is reused by all writes
+// of the run and is overwritten with 0xEE right after the call returns (before anything is observed), the way a receive
+// loop reuses its buffer (Buffer.ReadOnce). The spare capacity behind the chunk is a 0xEE canary that must stay intact, and
+// the chunk itself must not be modified by the call. All Reads go into ONE destination scratch slice, which is overwritten
+// with 0xDD after the returned bytes have been rendered. Slices returned by Next()/Bytes() are rendered immediately and
+// never looked at again (they are documented to be invalid after the next modification).
 //
 // Observation: per op `<result> / <Bytes> <Len> <String> <Seek(0,Current)> <Cap>` (buffer) resp.
 // `<result> / <Bytes> <Len> <Position>` (stream), joined by " ; ". Byte strings longer than 16 bytes are
@@ -79,25 +87,98 @@ func payload(tok string) ([]byte, bool) {
 		}
 		return b, true
 	}
+	if strings.HasPrefix(tok, "@") {
+		parts := strings.Split(tok[1:], ":")
+		if len(parts) != 2 {
+			return nil, false
+		}
+		n, e1 := strconv.Atoi(parts[0])
+		s, e2 := strconv.Atoi(parts[1])
+		if e1 != nil || e2 != nil || n < 0 || n > 1<<24 || s < 0 || s > 255 {
+			return nil, false
+		}
+		b := make([]byte, n)
+		base := uint32(s) << 22
+		for j := range b {
+			b[j] = byte((base + uint32(j/4)) >> (8 * uint(j%4)))
+		}
+		return b, true
+	}
 	b, err := hex.DecodeString(tok)
 	return b, err == nil
 }
 
+// session: the caller-side memory of one run (see the header comment)
+type session struct {
+	src []byte // source scratch of all writes
+	dst []byte // destination scratch of all reads
+}
+
+const canary = 4096 // spare capacity behind every written chunk, filled with 0xEE
+
+// source copies the chunk into the shared source scratch and returns it as a slice with spare (canary) capacity
+func (ss *session) source(p []byte) []byte {
+	need := len(p) + canary
+	if cap(ss.src) < need {
+		ss.src = make([]byte, need+need/2)
+	}
+	ss.src = ss.src[:cap(ss.src)]
+	copy(ss.src, p)
+	for i := len(p); i < len(p)+canary; i++ {
+		ss.src[i] = 0xEE
+	}
+	return ss.src[:len(p)]
+}
+
+// afterWrite checks that the call neither modified the chunk nor wrote behind it, then scribbles over the chunk
+func (ss *session) afterWrite(q []byte, sum uint32) string {
+	res := ""
+	if crc32.ChecksumIEEE(q) != sum {
+		res = " srcmod"
+	}
+	for _, v := range ss.src[len(q) : len(q)+canary] {
+		if v != 0xEE {
+			res += " clobber"
+			break
+		}
+	}
+	for i := range q {
+		q[i] = 0xEE
+	}
+	return res
+}
+
+func (ss *session) dest(k int) []byte {
+	if cap(ss.dst) < k {
+		ss.dst = make([]byte, k+k/2)
+	}
+	return ss.dst[:k]
+}
+
+func scribble(p []byte) {
+	for i := range p {
+		p[i] = 0xDD
+	}
+}
+
 // ---------------------------------------------------------------- buffer
 
-func bufOp(b *iox.Buffer, w []string) string {
+func bufOp(ss *session, b *iox.Buffer, w []string) string {
 	switch {
 	case w[0] == "write" && len(w) == 2:
 		p, ok := payload(w[1])
 		if !ok {
 			return "bad-op"
 		}
+		q := ss.source(p)
+		sum := crc32.ChecksumIEEE(q)
 		return safe(func() string {
-			n, err := b.Write(p)
+			n, err := b.Write(q)
+			extra := ss.afterWrite(q, sum)
 			if err != nil {
-				return fmt.Sprintf("w %d %s", n, errName(err))
+				return fmt.Sprintf("w %d %s%s", n, errName(err), extra)
 			}
-			return fmt.Sprintf("w %d", n)
+			return fmt.Sprintf("w %d%s", n, extra)
 		})
 	case w[0] == "read" && len(w) == 2:
 		k, err := strconv.Atoi(w[1])
@@ -105,12 +186,14 @@ func bufOp(b *iox.Buffer, w []string) string {
 			return "bad-op"
 		}
 		return safe(func() string {
-			p := make([]byte, k)
+			p := ss.dest(k)
 			n, err := b.Read(p)
 			if n < 0 || n > k {
 				return fmt.Sprintf("r badcount%d %s", n, errName(err))
 			}
-			return fmt.Sprintf("r %s %s", rd(p[:n]), errName(err))
+			res := fmt.Sprintf("r %s %s", rd(p[:n]), errName(err))
+			scribble(p)
+			return res
 		})
 	case w[0] == "next" && len(w) == 2:
 		n, err := strconv.Atoi(w[1])
@@ -159,13 +242,14 @@ func bufObserve(b *iox.Buffer) string {
 
 func runBuffer(ops []string) string {
 	b := &iox.Buffer{}
+	ss := &session{}
 	out := make([]string, 0, len(ops))
 	for _, o := range ops {
 		w := strings.Fields(o)
 		if len(w) == 0 {
 			continue
 		}
-		r := bufOp(b, w)
+		r := bufOp(ss, b, w)
 		if r == "bad-op" {
 			out = append(out, r)
 			break
@@ -177,7 +261,7 @@ func runBuffer(ops []string) string {
 
 // ---------------------------------------------------------------- stream
 
-func strOp(s *iox.OctetsStream, w []string) string {
+func strOp(ss *session, s *iox.OctetsStream, w []string) string {
 	wr := func(f func() error) string {
 		return safe(func() string { return "w " + errName(f()) })
 	}
@@ -197,7 +281,12 @@ func strOp(s *iox.OctetsStream, w []string) string {
 		if !ok {
 			return "bad-op"
 		}
-		return wr(func() error { return s.Write(p) })
+		q := ss.source(p)
+		sum := crc32.ChecksumIEEE(q)
+		return safe(func() string {
+			err := s.Write(q)
+			return "w " + errName(err) + ss.afterWrite(q, sum)
+		})
 	case "wbyte":
 		d, ok := num(16)
 		if !ok || d < 0 {
@@ -237,12 +326,14 @@ func strOp(s *iox.OctetsStream, w []string) string {
 			return "bad-op"
 		}
 		return safe(func() string {
-			p := make([]byte, k)
+			p := ss.dest(k)
 			n, err := s.Read(p)
 			if n < 0 || n > k {
 				return fmt.Sprintf("r badcount%d %s", n, errName(err))
 			}
-			return fmt.Sprintf("r %s %s", rd(p[:n]), errName(err))
+			res := fmt.Sprintf("r %s %s", rd(p[:n]), errName(err))
+			scribble(p)
+			return res
 		})
 	case "rbyte":
 		return safe(func() string {
@@ -279,13 +370,14 @@ func strObserve(s *iox.OctetsStream) string {
 
 func runStream(ops []string) string {
 	s := &iox.OctetsStream{}
+	ss := &session{}
 	out := make([]string, 0, len(ops))
 	for _, o := range ops {
 		w := strings.Fields(o)
 		if len(w) == 0 {
 			continue
 		}
-		r := strOp(s, w)
+		r := strOp(ss, s, w)
 		if r == "bad-op" {
 			out = append(out, r)
 			break
